@@ -41,7 +41,7 @@ TECHNIQUE = "rule-based state machine (model-based testing) + exhaustive explora
 THOROUGH_REPS = 4
 DETERMINISTIC_FNS = ('t_explore',)
 
-USERS = ["alice", "bøb", "da ve", "u" * 40, "#carol", " lead"]
+USERS = ["alice", "bøb", "da ve", "u" * 40, "#carol", " lead", " #eve"]
 REALMS = ["r1", "réalm two"]
 PASSWORDS = ["pw1", "pässword2", "x y z"]
 BAD_NAMES = ["a:b", "a\nb", "a\rb", "a\tb", "a\x00b", "n" * 256, "é" * 256, ":", "é" * 128, "€" * 86, "é" * 127 + "x", "n" * 255]
